@@ -6,7 +6,8 @@ From Coq Require Import Reals List ZArith QArith Qreals Lia.
 From AhrsLib Require Import Base SphHarm.
 From AhrsModel Require Import C14_wmm.
 From AhrsGen Require Import C14data C14gen_R.
-From AhrsProps Require Import C14_poly C14_data C14_synth.
+From AhrsGen Require Import C14prog.
+From AhrsProps Require Import C14_poly C14_data C14_synth C14_ssa C14_tie C14_polar.
 Import ListNotations.
 Close Scope Q_scope.
 Open Scope R_scope.
@@ -105,3 +106,61 @@ Proof.
   unfold g2s_code. cbv zeta. cbn [fst]. rewrite Rmult_0_l, sin_0. rewrite !Rmult_0_r.
   unfold Rdiv at 1. rewrite Rmult_0_l, asin_0, cos_0. apply R1_neq_R0.
 Qed.
+
+(* 8. Tie by proof (not only by correspondence) between REGENERATED code and the hand model, for the two polynomial
+      tables: the DAG pysym traced is printed a second time as a straight-line program (gen/C14prog.v); the program is
+      convertible to the regenerated definition (checked by the VM), and its run on polynomials has the model's normal forms *)
+Theorem C14_legendre_generated_is_model : forall phi,
+  C14_legendre_R phi =
+  Val (map (fun nm => Pmn (rops_of OpsR) (sin phi) (cos phi) (fst nm) (snd nm)) idx12 ++
+       map (fun nm => dPmn (rops_of OpsR) (sin phi) (cos phi) (fst nm) (snd nm)) idx12).
+Proof. exact legendre_generated_is_model. Qed.
+Print Assumptions C14_legendre_generated_is_model.
+
+(* the centrepiece, transported to the regenerated code: entry k of the traced P table (k-th pair (n, m) in row-major
+   order) times the Schmidt factor is the Schmidt semi-normalised function, entry 91 + k (the dP table) minus its derivative *)
+Theorem C14_legendre_generated_spec : forall phi,
+  exists l, C14_legendre_R phi = Val l /\ length l = 182%nat /\
+  forall k n m, nth_error idx12 k = Some (n, m) ->
+    Smn OpsR n m * nth k l 0 = Pschmidt n m phi /\ Smn OpsR n m * nth (91 + k) l 0 = - dPschmidt n m phi.
+Proof. exact legendre_generated_spec. Qed.
+Print Assumptions C14_legendre_generated_spec.
+
+Theorem C14_cpsp_generated_spec : forall lon,
+  C14_cpsp_R lon = Val (map (fun m => cos (INR m * (lon * (PI / 180)))) (seq 0 13) ++
+                        map (fun m => sin (INR m * (lon * (PI / 180)))) (seq 0 13)).
+Proof. exact cpsp_generated_spec. Qed.
+Print Assumptions C14_cpsp_generated_spec.
+
+(* 9. the polar clause: Y' has a removable singularity; with P~/cos written as a polynomial (PoC, sh_Y_ext) *)
+Theorem C14_sh_Y_removable : forall N g h q lam phi, cos phi <> 0 -> sh_Y N g h q lam phi = sh_Y_ext N g h q lam phi.
+Proof. exact sh_Y_ext_eq. Qed.
+Print Assumptions C14_sh_Y_removable.
+
+Theorem C14_spec_continuous_at_poles : forall N g h q lam,
+  continuity (fun phi => sh_X N g h q lam phi) /\ continuity (fun phi => sh_Y_ext N g h q lam phi) /\
+  continuity (fun phi => sh_Z N g h q lam phi).
+Proof. exact sh_continuous. Qed.
+Print Assumptions C14_spec_continuous_at_poles.
+
+(* the regular branch of the code (the only branch binary64 runs) equals the continuous extension wherever cos phi' <> 0 ... *)
+Theorem C14_regular_branch_is_extension : forall (rows : list (row R)) (dt phi lam ar cpsi spsi : R),
+  wf rows -> cos phi <> 0 ->
+  core OpsR (fst (load OpsR rows)) (snd (load OpsR rows)) dt (sin phi) (cos phi) (sin lam) (cos lam) ar cpsi spsi =
+  let g := advance (coef OpsR rg rows) (coef OpsR rgd rows) dt in
+  let h := advance (coef OpsR rh rows) (coef OpsR rhd rows) dt in
+  (sh_X 12 g h ar lam phi * cpsi - sh_Z 12 g h ar lam phi * spsi, sh_Y_ext 12 g h ar lam phi,
+   sh_X 12 g h ar lam phi * spsi + sh_Z 12 g h ar lam phi * cpsi).
+Proof. exact core_regular_is_ext. Qed.
+Print Assumptions C14_regular_branch_is_extension.
+
+(* ... so at the poles (any phi0) the regular branch converges to the extension's value *)
+Theorem C14_regular_branch_limit : forall (rows : list (row R)) (dt lam ar cpsi spsi phi0 : R), wf rows ->
+  forall eps, 0 < eps -> exists delta, 0 < delta /\
+    forall phi, cos phi <> 0 -> Rabs (phi - phi0) < delta ->
+      let Y := snd (fst (core OpsR (fst (load OpsR rows)) (snd (load OpsR rows)) dt (sin phi) (cos phi) (sin lam) (cos lam)
+                              ar cpsi spsi)) in
+      Rabs (Y - sh_Y_ext 12 (advance (coef OpsR rg rows) (coef OpsR rgd rows) dt)
+                             (advance (coef OpsR rh rows) (coef OpsR rhd rows) dt) ar lam phi0) < eps.
+Proof. exact regular_branch_limit. Qed.
+Print Assumptions C14_regular_branch_limit.
